@@ -14,6 +14,7 @@
 
 import numpy as np
 
+from ..__settings import settings
 from ..sdk.utils import DecompositionUnsuccessful, check_unitary
 
 
@@ -65,7 +66,9 @@ def reck_decomposition(unitary: np.ndarray) -> tuple[dict[str, float], list]:
             phase_map[f"ps_{j + 2 * i}_{j}"] = phi
 
     # Check matrix has indeed been nulled by code, otherwise raise error
-    if not check_null(unitary):
+    # Residual elements scale with the accepted deviation from unitarity
+    precision = max(1e-10, 2 * n_modes * settings.unitary_precision)
+    if not check_null(unitary, precision):
         raise DecompositionUnsuccessful(
             "Unable to successfully perform unitary decomposition procedure."
         )
@@ -114,9 +117,7 @@ def check_null(mat: np.ndarray, precision: float = 1e-10) -> bool:
     for i in range(mat.shape[0]):
         for j in range(mat.shape[1]):
             # Check off diagonals are nulled
-            if i != j and (
-                np.real(mat[i, j] > precision) or np.imag(mat[i, j]) > precision
-            ):
+            if i != j and abs(mat[i, j]) > precision:
                 return False  # Return false if any elements aren't
     # Return true if above loop passes
     return True
